@@ -3,6 +3,14 @@
 import json, sys
 pid = sys.argv[1]
 n = sys.argv[2] if len(sys.argv) > 2 else "3"
+first = int(sys.argv[3]) if len(sys.argv) > 3 else 1   # number of the first variant (round 2 starts at 4)
+import glob, os
+avoid = []
+for mf in sorted(glob.glob('/verif/seeded/%s-m*/meta.json' % pid)):
+    try:
+        avoid.append("- " + json.load(open(mf)).get("summary", "")[:260].replace("\n", " "))
+    except Exception:
+        pass
 for l in open('/verif/properties.jsonl'):
     p = json.loads(l)
     if p['id'] == pid:
@@ -19,8 +27,10 @@ Files where the mechanisms live (hints): {', '.join(p['anchors']['files'])}
 
 TASK: produce {n} DIFFERENT source changes to atlas (each independent, each applied to a clean checkout) that BREAK this property while (a) still compiling, and (b) still passing the project's existing test suite (`go test ./sql/... ./schemahcl/...` in the root module; for changes under cmd/atlas also `go test ./internal/...` in cmd/atlas with the toolchain above). Each change must look like a plausible refactoring / optimisation / bug a developer could commit, touch at most a few lines, and need something SPECIFIC to manifest — a particular multi-step sequence, an unusual input shape, a fault or crash at a particular point, a particular ordering, or two cooperating sites that each look fine alone — NOT something ordinary use would expose at once. Prefer changes in different functions / mechanisms for the {n} variants. Do not modify existing tests.
 
-For each variant i = 1..{n} write into /var/tmp/seed/out-{pid}/m<i>/ :
+{("ALREADY TRIED by earlier developers — do NOT repeat these ideas or close variations of them, pick other functions / mechanisms / code paths (other files named in the hints, other dialects, other commands, other failure points):" + chr(10) + chr(10).join(avoid) + chr(10)) if avoid and first > 1 else ""}
+For each variant i = {first}..{first + int(n) - 1} write into /var/tmp/seed/out-{pid}/m<i>/ :
   - patch.diff   : `git diff` of the change against the worktree HEAD (apply-able with `git apply`)
   - demo_test.go (or demo.sh + small program): a demonstration that FAILS with the change and PASSES without it, runnable inside the worktree (say exactly where to copy it and the command to run it); it should exercise the public behaviour the property talks about
-  - meta.json    : {{"property": "{pid}", "summary": "...", "needs_to_manifest": "...", "files_touched": [...], "demo_cmd": "...", "existing_tests_cmd": "...", "existing_tests_pass": true}}
+  - meta.json    : {{"property": "{pid}", "summary": "...", "needs_to_manifest": "...", "files_touched": [...], "demo_cmd": "<ONE shell command line, runnable as-is from the worktree root /var/tmp/seed/{pid} (it may start with cp/mkdir … &&), exit status 0 = property holds, non-zero = violated; NO prose or parenthetical remarks in this field>", "existing_tests_cmd": "...", "existing_tests_pass": true}}
+Practical notes: run the existing test suites with a private temp dir (`export TMPDIR=$(mktemp -d)`) — sql/sqlite's lock test uses a fixed file name under os.TempDir() and fails spuriously when several suites run at once; sql/sqltool's TestFormatters is wall-clock dependent and may fail once on a second boundary (re-run it).
 Verify yourself, for each variant on a clean tree (`git checkout -- . && git clean -fd` between variants; leave the worktree CLEAN at the end): existing tests pass with the patch; the demo fails with the patch and passes without it. Final answer: a short list of the variants and what each needs to manifest.""")
